@@ -336,8 +336,13 @@ def run(prog, chk):
         others = [i for i in q.calls(f) if f.nodes[i].get("callee", "").startswith("sem_") and i not in cs]
         ok = len(cs) == 1 and not others
         if ok and shape:
-            rets = [i for i, n in enumerate(f.nodes) if n["k"] == "ReturnStmt" and n["c"]]
-            ok = len(rets) == 1 and q.no_casts(f.r(f.nodes[rets[0]]["c"][0])).endswith(shape + ")")
+            # decision table over the primitive's outcome: failure (-1) must come back as false, success (0) as true
+            ck = fin.key(f, cs[0])
+            for outcome, want in ((-1, 0), (0, 1)):
+                _seen, r_, v_ = fin.walk_vals(f, f.entry, {ck: outcome})
+                got = fin.eval_expr(f, f.nodes[r_]["c"][0], v_) if isinstance(r_, int) and f.nodes[r_]["c"] else None
+                if got is None or bool(got) != bool(want) or cs[0] not in set(x for e in _seen for x in f.desc(e)):
+                    ok = False
         if ok:
             chk.ok("C11.h", f, "%s maps to %s" % (name, prim), "%s:%s" % (f.file, f.line), f.r(cs[0])[:50], nontrivial=False)
         else:
